@@ -15,8 +15,9 @@ class TLCError(RuntimeError):
     pass
 
 
-def _java(args, env=None, timeout=None, cwd=SPECS, xmx="3g", stack="64m"):
-    cmd = ["java", "-XX:+UseParallelGC", "-Xmx" + xmx, "-Xss" + stack, "-cp", JAR] + args
+def _java(args, env=None, timeout=None, cwd=SPECS, xmx="3g", stack="64m", gc=("-XX:+UseSerialGC",)):
+    # many TLC processes run side by side (one per scenario): keep each JVM to few threads
+    cmd = ["java"] + list(gc) + ["-XX:CICompilerCount=2", "-XX:TieredStopAtLevel=4", "-Xmx" + xmx, "-Xss" + stack, "-cp", JAR] + args
     e = dict(os.environ)
     if env:
         e.update(env)
@@ -63,7 +64,7 @@ def model_check(module, cfg, workdir, workers=16, timeout=3600, extra=(), env=No
         args += ["-coverage", "1"]
     args += list(extra) + [module + ".tla"]
     t0 = time.time()
-    rc, out = _java(args, env=env, timeout=timeout, xmx=xmx)
+    rc, out = _java(args, env=env, timeout=timeout, xmx=xmx, gc=("-XX:+UseParallelGC", "-XX:ParallelGCThreads=%d" % max(2, min(4, workers))))
     wall = time.time() - t0
     shutil.rmtree(meta, ignore_errors=True)
     stats = parse_stats(out)
